@@ -8,7 +8,7 @@ import random
 import simdrv, gen
 from .base import Check, key_str
 
-EXPR_MIX = {"add": 6, "sub": 6, "int": 3, "batch": 3, "rot": 3, "trans": 3, "scale": 1, "mirror": 1, "compose": 2, "selfop": 2,
+EXPR_MIX = {"add": 6, "force": 1, "sub": 6, "int": 3, "batch": 3, "rot": 3, "trans": 3, "scale": 1, "mirror": 1, "compose": 2, "selfop": 2,
             "copy": 1, "settol": 1, "simplify": 1, "warp": 1, "ltrans": 1}
 OBS = [("status", 50), ("refine", 6), ("refinelen", 5), ("refinetol", 4), ("hull", 8), ("minksum", 5), ("minkdiff", 3),
        ("frommesh", 5), ("frommesh32", 2), ("smooth", 6), ("levelset", 6)]
@@ -44,6 +44,11 @@ def make_scenario(rng):
                 a[0] = '-1'  # the latest result
                 op = k + ":" + ",".join(a)
             expr.append(op)
+            if rng.random() < 0.25:
+                # keep a second handle on the node, then evaluate it before the observed call
+                expr.append("copy:-1")
+                if rng.random() < 0.8:
+                    expr.append("force:%d,%d" % (rng.choice([-1, -2]), rng.randrange(5)))
     if obs in ("minksum", "minkdiff"):
         setup.append("cube:%d,%d,%d,1" % (rng.randrange(100), rng.randrange(100), rng.randrange(100)))
         setup.append("scale:%d,0,0,0" % (len(setup) - 1))
